@@ -15,7 +15,14 @@ def reproduce_scenario(context, scenario, *, keyword='Given'):
         if included_scenario.name == scenario:
             for step in included_scenario.steps:
                 if step.step_type in ['given', 'when']:
-                    context.execute_steps('{} {}'.format(keyword, step.name))
+                    step_text = '{} {}'.format(keyword, step.name)
+                    if step.table:
+                        # Reproduce the table of the step (eg. the parameters of an event)
+                        rows = [step.table.headings] + [row.cells for row in step.table.rows]
+                        for cells in rows:
+                            step_text += '\n  | {} |'.format(
+                                ' | '.join(cell.replace('|', '\\|') for cell in cells))
+                    context.execute_steps(step_text)
             return
     assert False, 'Unknown scenario {}.'.format(scenario)
 
